@@ -359,10 +359,15 @@ impl Ctx {
                 .collect()
         });
 
+        let mut reported = false;
         for (stats, fail) in results {
             self.merge(C::NAME, stats);
             if let Some((sig, msg, case)) = fail {
-                self.push_failure::<C>(sig, msg, &case);
+                // several workers may fail at once: report the first (lowest worker index) only
+                if !reported {
+                    reported = true;
+                    self.push_failure::<C>(sig, msg, &case);
+                }
             }
         }
     }
@@ -428,7 +433,7 @@ impl Ctx {
         let case_json = serde_json::to_value(case).unwrap_or(Value::Null);
         let dir = format!("{VERIF_ROOT}/replays");
         let _ = std::fs::create_dir_all(&dir);
-        let path = format!("{dir}/{}-{}-{}.json", self.property, C::NAME, self.seed);
+        let path = format!("{dir}/{}-{}-{}-{}.json", self.property, C::NAME, self.seed, self.failures.len());
         let doc = json!({
             "property": self.property,
             "check": C::NAME,
